@@ -804,6 +804,10 @@ func ruleC12Precision(c *Ctx) {
 			c.violate("C12.precision", "verb:strconv", sp.Pos(), name, "strconv.FormatFloat is not used with the 'f' format: exponents or shortest-form output would appear in the value column")
 			return
 		}
+		if k, ok := constInt(sp.Call.Args[3]); !ok || k != 64 {
+			c.violate("C12.precision", "bitsize:strconv", sp.Pos(), name, "strconv.FormatFloat is told to round the mantissa as a 32-bit float first: values of nine or more digits next to a half-unit boundary are rounded the wrong way (106430463 B shows as 102 MiB)")
+			return
+		}
 	}
 	type branch struct {
 		val  ssa.Value
